@@ -477,6 +477,13 @@ func genConfig(r rng, seed uint64, id string, merge bool) *sdl.Program {
 			setPath(s.Doc, "sim.b", r.n(1, 9))
 		}
 		p.Sources = append(p.Sources, s)
+		// a loader that settles its order late: the second initialisation sequences it anew
+		for _, e := range p.Sources {
+			if e.Kind == "sim" && !e.Late && (e.OrderClass == "ordered" || e.OrderClass == "priority") && r.p(0.5) {
+				o2 := pick(r, []int{-4, -1, 1, 3, 5})
+				e.Order2 = &o2
+			}
+		}
 	}
 	// components with configuration fields
 	nt := r.n(1, 3)
@@ -488,7 +495,7 @@ func genConfig(r rng, seed uint64, id string, merge bool) *sdl.Program {
 			if merge {
 				// precedence family: fields never make the start fail
 				cf.Optional, cf.Validate = true, ""
-				if cf.Menu == "sum" || cf.Menu == "mul" || cf.Menu == "nested" || cf.Menu == "indirect" || cf.Menu == "prefixStructV" || cf.Menu == "sumDef2" || cf.Menu == "cmp" || cf.Menu == "tern" || cf.Menu == "concat" || cf.Menu == "affine" || cf.Menu == "and" || cf.Menu == "mod" {
+				if cf.Menu == "sum" || cf.Menu == "mul" || cf.Menu == "nested" || cf.Menu == "indirect" || cf.Menu == "prefixStructV" || cf.Menu == "sumDef2" || cf.Menu == "cmp" || cf.Menu == "tern" || cf.Menu == "concat" || cf.Menu == "affine" || cf.Menu == "and" || cf.Menu == "mod" || cf.Menu == "div" {
 					cf.Menu, cf.Keys, cf.GoType = "prefixStruct", []string{"sim.sub"}, "struct"
 				}
 			}
@@ -517,7 +524,7 @@ func genConfig(r rng, seed uint64, id string, merge bool) *sdl.Program {
 				Optional: merge || r.p(0.4), Anon: true, Embed: embedChain(r, 0.15)})
 		}
 		p.Types = append(p.Types, t)
-		p.Instances = append(p.Instances, &sdl.Instance{ID: fmt.Sprintf("c%d", ti), Type: t.Name})
+		p.Instances = append(p.Instances, &sdl.Instance{ID: fmt.Sprintf("c%d", ti), Type: t.Name, PresetCfg: r.p(0.25)})
 	}
 	// the configuration changes while the container runs: an initialization callback sets a
 	// key that an expression of a component created later (lazy: by a lookup after Run) reads
@@ -560,7 +567,10 @@ func genConfig(r rng, seed uint64, id string, merge bool) *sdl.Program {
 func genConf(r rng, field string) *sdl.Conf {
 	c := &sdl.Conf{Field: field, GoType: "int"}
 	c.Embed = embedChain(r, 0.15)
-	switch r.IntN(15) {
+	switch r.IntN(16) {
+	case 15:
+		// a quotient that is usually no short decimal, into a float field
+		c.Menu, c.Keys, c.GoType = "div", []string{pick(r, cfgLeafInts[:3]), pick(r, cfgLeafInts[:3])}, "float"
 	case 12:
 		// comparison / conjunction into a bool field
 		if r.p(0.5) {
@@ -577,6 +587,10 @@ func genConf(r rng, field string) *sdl.Conf {
 			c.Menu, c.Keys = "affine", []string{pick(r, cfgLeafInts[:3]), pick(r, cfgLeafInts[:3]), pick(r, cfgLeafInts[:3])}
 		default:
 			c.Menu, c.Keys = "mod", []string{pick(r, cfgLeafInts[:3])}
+			if r.p(0.5) {
+				// a quotient that is no short decimal, into a float field
+				c.Menu, c.Keys, c.GoType = "div", []string{pick(r, cfgLeafInts[:3]), pick(r, cfgLeafInts[:3])}, "float"
+			}
 		}
 	case 14:
 		// string concatenation inside an expression
@@ -679,10 +693,14 @@ func GenerateTwins(seed uint64, idFlat, idEmb string) (*sdl.Program, *sdl.Progra
 	}
 	for _, t := range p.Types {
 		t.Logger, t.LogEmbed = r.p(0.4), nil
+		if t.Logger && r.p(0.5) {
+			// a second logger field with an explicit prefix, in front of or behind the first
+			t.Logger2, t.Log2First = pick(r, []string{"LPa", "LPb"}), r.p(0.6)
+		}
 		for fi := 0; fi < r.n(0, 2); fi++ {
 			cf := genConf(r, fmt.Sprintf("C%d", fi))
 			cf.Optional, cf.Validate, cf.Embed = true, "", nil
-			if cf.Menu == "sum" || cf.Menu == "mul" || cf.Menu == "nested" || cf.Menu == "indirect" || cf.Menu == "prefixStructV" || cf.Menu == "sumDef2" || cf.Menu == "cmp" || cf.Menu == "tern" || cf.Menu == "concat" || cf.Menu == "affine" || cf.Menu == "and" || cf.Menu == "mod" {
+			if cf.Menu == "sum" || cf.Menu == "mul" || cf.Menu == "nested" || cf.Menu == "indirect" || cf.Menu == "prefixStructV" || cf.Menu == "sumDef2" || cf.Menu == "cmp" || cf.Menu == "tern" || cf.Menu == "concat" || cf.Menu == "affine" || cf.Menu == "and" || cf.Menu == "mod" || cf.Menu == "div" {
 				cf.Menu, cf.Keys, cf.Default, cf.GoType = "valueDef", []string{pick(r, cfgLeafInts)}, "1", "int"
 			}
 			if len(p.Scanners) != 0 && r.p(0.35) {
